@@ -319,8 +319,76 @@ def merge_scripts_section(ctx):
             ctx.corr_mismatch(case, "Gallina merge_scripts differs from kernFeatureWriter.mergeScripts")
 
 
+def variable_kern_section(ctx):
+    """the property on VARIABLE fonts (both kern writers, glyf and CFF2): masters that list DIFFERENT kerning keys -- a glyph
+    pair, a glyph/class or a class/glyph exception present in one master only, the other masters covering the pair by a more
+    general rule.  The font instantiated at every master's location applies, to every pair of glyphs, the value UFO kerning
+    lookup gives in that master (fontTools.ufoLib.kerning.lookupKerningValue, not ufo2ft code)"""
+    import ufo2ft
+    from harness import dsgen
+    from fontTools.ttLib import TTFont
+    from fontTools.varLib import instancer
+    from fontTools.ufoLib.kerning import lookupKerningValue
+    from ufo2ft.featureWriters.kernFeatureWriter import KernFeatureWriter
+    from ufo2ft.featureWriters.kernFeatureWriter2 import KernFeatureWriter as KernFeatureWriter2
+    from ufo2ft.featureWriters import MarkFeatureWriter, GdefFeatureWriter, CursFeatureWriter
+    rng = ctx.subrng("variable-kern")
+    tri = lambda x, k: [[(Fr(x), Fr(0), "line"), (Fr(x + 100 + 5 * k), Fr(0), "line"), (Fr(x + 50), Fr(100), "line")]]
+    NAMES = [("A", 0x41), ("V", 0x56), ("W", 0x57), ("T", 0x54), ("o", 0x6F)]
+    groups = {"public.kern1.A": ["A"], "public.kern2.V": ["V", "W"], "public.kern1.T": ["T"], "public.kern2.o": ["o"]}
+    for i in range(ctx.budget(8, 32)):
+        lib = ["ufoLib2", "defcon"][i % 2]
+        fn = ["compileVariableTTF", "compileVariableCFF2"][(i // 2) % 2]
+        wname, wcls = [("kernFeatureWriter", KernFeatureWriter), ("kernFeatureWriter2", KernFeatureWriter2)][(i // 4) % 2]
+        only = i % 3                # which master alone carries the exceptions
+        def master(k):
+            kern = {("public.kern1.A", "public.kern2.V"): Fr(-40 - 10 * k), ("public.kern1.T", "public.kern2.o"): Fr(-30 - 7 * k),
+                    ("public.kern1.T", "public.kern2.V"): Fr(9 + k)}
+            if k == only:
+                kern[("A", "V")] = Fr(-100)                         # glyph / glyph
+                kern[("public.kern1.T", "o")] = Fr(-55)             # class / glyph
+                kern[("T", "public.kern2.V")] = Fr(21)              # glyph / class
+            return {"glyphs": [{"name": n, "unicodes": [u], "width": Fr(500 + 10 * k), "components": [], "contours": tri(j, k), "anchors": []}
+                               for j, (n, u) in enumerate(NAMES)],
+                    "glyphOrder": [n for n, _ in NAMES], "kerning": kern, "groups": dict(groups),
+                    "features": "languagesystem DFLT dflt;\nlanguagesystem latn dflt;\n", "lib": {},
+                    "info": {"familyName": "Fam", "styleName": "M%d" % k, "unitsPerEm": 1000, "ascender": 800, "descender": -200}}
+        masters = [master(k) for k in range(3)]
+        case = {"function": fn, "writer": wname, "lib": lib, "master_with_the_exceptions": only,
+                "masters": [jsonable({k: (v if k != "kerning" else {"%s|%s" % kk: vv for kk, vv in v.items()}) for k, v in m.items()}) for m in masters]}
+        ctx.count(); ctx.klass("variable kerning: exceptions in master %d only/%s/%s" % (only, fn, wname)); ctx.nontriv(("vk", i, ctx.scale))
+        try:
+            ds, fonts = dsgen.make_designspace(rng, masters, lib, instances=False)
+            vf = getattr(ufo2ft, fn)(ds, useProductionNames=False, featureWriters=[CursFeatureWriter, wcls, MarkFeatureWriter, GdefFeatureWriter])
+            b = io.BytesIO(); vf.save(b)
+        except Exception as e:
+            ctx.spec_failure(case, "%s raised %s: %s\n%s" % (fn, type(e).__name__, e, traceback.format_exc()[-1000:]))
+            continue
+        g1 = {g: gr for gr, ms in groups.items() if gr.startswith("public.kern1.") for g in ms}
+        g2 = {g: gr for gr, ms in groups.items() if gr.startswith("public.kern2.") for g in ms}
+        for k, wght in enumerate([100, 500, 900]):
+            inst = instancer.instantiateVariableFont(TTFont(io.BytesIO(b.getvalue())), {"wght": wght})
+            b2 = io.BytesIO(); inst.save(b2)
+            lay = Layout(TTFont(io.BytesIO(b2.getvalue())))
+            lk = lay.lookups_for("latn", {"kern"})
+            kern = {kk: int(v) for kk, v in masters[k]["kerning"].items()}
+            bad = []
+            for a, _ in NAMES:
+                for c, _ in NAMES:
+                    want = lookupKerningValue((a, c), kern, groups, glyphToFirstGroup=g1, glyphToSecondGroup=g2)
+                    got = lay.pair_adjust(lk, a, c)[0]
+                    if got != want:
+                        bad.append((a, c, got, want))
+            if bad:
+                ctx.spec_failure(dict(case, master=k, pairs=bad[:6]),
+                                 "at master %d's location the pair (%s, %s) is adjusted by %r; UFO kerning lookup in that master gives %r (%d pairs differ)" % (
+                                     (k,) + bad[0] + (len(bad),)))
+                break
+
+
 def explore(ctx):
     merge_scripts_section(ctx)
+    variable_kern_section(ctx)
     # the bidi classification of glyphs (cmap + GSUB closure with the neutral glyphs taken out + designspace-rule
     # substitutes) is util.classifyGlyphs with the writer's bidi type: the same Gallina model as C18's, other property
     from harness.props.c18 import classify_model_section
